@@ -28,7 +28,7 @@ type Job struct {
 
 type propDef struct {
 	gen  func(seed uint64, tier string) *Plan
-	run  map[string]func(s *sim)                       // by world
+	run  map[string]func(s *sim)                   // by world
 	post func(res *RunResult, post map[string]any) // optional; runs outside the bubble (real clock)
 }
 
@@ -260,7 +260,6 @@ func onlyHarnessFrames(g string) bool {
 	}
 	return true
 }
-
 
 // mutexBlockedIn: name of the first function of the given source file from which a goroutine is
 // currently blocked in sync.(*Mutex).Lock ("" if none).
